@@ -7,6 +7,8 @@ mod range;
 mod range_replay;
 mod models;
 mod backend_replay;
+mod bits_replay;
+mod symbol_replay;
 
 fn main() {
     common::install_panic_hook();
